@@ -13,11 +13,10 @@ import (
 	"fmt"
 	"net/http"
 	"net/http/httptest"
+	"os"
 	"strings"
 	"time"
 
-	"github.com/zeromicro/go-zero/core/fx"
-	"github.com/zeromicro/go-zero/core/mr"
 	"github.com/zeromicro/go-zero/core/syncx"
 	"github.com/zeromicro/go-zero/core/threading"
 	"github.com/zeromicro/go-zero/rest/handler"
@@ -32,6 +31,25 @@ type st struct {
 	notes []string
 	bad   string
 	cls   string
+	// mw: set by a preceded-by prefix that hands the measured MaxConns scenario the very
+	// middleware value it built its own handler from (one MaxConnsHandler(n) applied to two routes)
+	mw func(http.Handler) http.Handler
+}
+
+// pendingSt: the record a preceded-by wrapper (prefix.go) opened for this execution; the measured
+// scenario's body adopts it, so that findings of the prefix and of the measured part end up in
+// one place. Set at the start of every wrapped Body, consumed by newSt (one execution at a time
+// per process).
+var pendingSt *st
+
+func newSt() *st {
+	if s := pendingSt; s != nil {
+		pendingSt = nil
+		return s
+	}
+	s := &st{}
+	vsched.SetUser(s)
+	return s
 }
 
 func (s *st) fail(class, format string, a ...any) {
@@ -65,8 +83,7 @@ func verdict(e *vsched.Exec, sig func(s *st) string) vx.Verdict {
 func limitScenario(n int, modes string) vx.Scenario {
 	name := fmt.Sprintf("limit-n%d-%s", n, modes)
 	body := func() {
-		s := &st{}
-		vsched.SetUser(s)
+		s := newSt()
 		l := syncx.NewLimit(n)
 		var wg vsched.WaitGroup
 		got, refused := 0, 0
@@ -139,8 +156,7 @@ func limitScenario(n int, modes string) vx.Scenario {
 func timeoutLimitScenario(n, threads int) vx.Scenario {
 	name := fmt.Sprintf("timeoutlimit-n%d-t%d", n, threads)
 	body := func() {
-		s := &st{}
-		vsched.SetUser(s)
+		s := newSt()
 		l := syncx.NewTimeoutLimit(n)
 		var wg vsched.WaitGroup
 		got, timedOut := 0, 0
@@ -209,8 +225,7 @@ func poolScenarioX(n, threads, rounds int, maxAge, destroyPanics, strayNilPut bo
 		name += "-stray-nil-put"
 	}
 	body := func() {
-		s := &st{}
-		vsched.SetUser(s)
+		s := newSt()
 		var all []*resource
 		live := 0
 		create := func() any {
@@ -317,8 +332,7 @@ func poolScenarioX(n, threads, rounds int, maxAge, destroyPanics, strayNilPut bo
 func taskRunnerScenario(n, tasks int, immediate, gate bool, panicAt int) vx.Scenario {
 	name := fmt.Sprintf("taskrunner-n%d-k%d-imm%v-gate%v-panic%d", n, tasks, immediate, gate, panicAt)
 	body := func() {
-		s := &st{}
-		vsched.SetUser(s)
+		s := newSt()
 		tr := threading.NewTaskRunner(n)
 		gateCh := vsched.MakeChan[struct{}](0)
 		okc, busy := 0, 0
@@ -402,8 +416,7 @@ func maxConnsScenarioKinds(n, reqs int, gate bool, panicAt int, kinds []string) 
 		name += "-" + strings.Join(kinds, "+")
 	}
 	body := func() {
-		s := &st{}
-		vsched.SetUser(s)
+		s := newSt()
 		gateCh := vsched.MakeChan[struct{}](0)
 		ran := make([]bool, reqs+n+2)
 		codes := make([]int, reqs+n+2)
@@ -436,7 +449,11 @@ func maxConnsScenarioKinds(n, reqs int, gate bool, panicAt int, kinds []string) 
 			codes[idx] = rec.Code
 			return rec.Code
 		}
-		h = handler.MaxConnsHandler(n)(http.HandlerFunc(func(w http.ResponseWriter, r *http.Request) {
+		mw := s.mw
+		if mw == nil {
+			mw = handler.MaxConnsHandler(n)
+		}
+		h = mw(http.HandlerFunc(func(w http.ResponseWriter, r *http.Request) {
 			var idx int
 			fmt.Sscanf(r.URL.Path, "/%d", &idx)
 			ran[idx] = true
@@ -525,115 +542,6 @@ func maxConnsScenarioKinds(n, reqs int, gate bool, panicAt int, kinds []string) 
 	}}
 }
 
-// ---------- mr / fx worker counts ----------
-
-func workersScenario(kind string, n, items int, panicAt int) vx.Scenario {
-	name := fmt.Sprintf("%s-w%d-items%d-panic%d", kind, n, items, panicAt)
-	body := func() {
-		s := &st{}
-		vsched.SetUser(s)
-		mapped := 0
-		work := func(i int) {
-			if g := s.gauge.Add(1); g > n {
-				s.fail("cap-exceeded", "%s: %d mappers running, workers %d", kind, g, n)
-			}
-			vsched.Op("in-mapper")
-			mapped++
-			s.gauge.Add(-1)
-			if i == panicAt {
-				panic("mapper panic")
-			}
-		}
-		func() {
-			defer func() {
-				if r := recover(); r != nil && panicAt < 0 {
-					s.fail("unexpected-panic", "%s panicked: %v", kind, r)
-				}
-			}()
-			switch kind {
-			case "mr.ForEach":
-				mr.ForEach(func(src chan<- int) {
-					for i := 0; i < items; i++ {
-						vsched.Send(src, i)
-					}
-				}, func(i int) { work(i) }, mr.WithWorkers(n))
-			case "mr.MapReduce":
-				mr.MapReduce(func(src chan<- int) {
-					for i := 0; i < items; i++ {
-						vsched.Send(src, i)
-					}
-				}, func(i int, w mr.Writer[int], cancel func(error)) {
-					work(i)
-					w.Write(i)
-				}, func(pipe <-chan int, w mr.Writer[int], cancel func(error)) {
-					sum := 0
-					for {
-						v, ok := vsched.Recv2(pipe)
-						if !ok {
-							break
-						}
-						sum += v
-					}
-					w.Write(sum)
-				}, mr.WithWorkers(n))
-			case "fx.Walk":
-				var its []any
-				for i := 0; i < items; i++ {
-					its = append(its, i)
-				}
-				fx.Just(its...).Walk(func(item any, pipe chan<- any) { work(item.(int)) }, fx.WithWorkers(n)).Done()
-			case "fx.Parallel":
-				var its []any
-				for i := 0; i < items; i++ {
-					its = append(its, i)
-				}
-				fx.Just(its...).Parallel(func(item any) { work(item.(int)) }, fx.WithWorkers(n))
-			case "fx.Walk-fed":
-				// the source is a caller-owned buffered channel of capacity n that is full when the
-				// stream is built and keeps being fed: still at most n walkers at a time
-				src := vsched.MakeChan[any](n)
-				for i := 0; i < n && i < items; i++ {
-					vsched.Send(src, any(i))
-				}
-				vsched.GoNamed("feeder", false, func() {
-					for i := n; i < items; i++ {
-						vsched.Send(src, any(i))
-					}
-					vsched.Close(src)
-				})
-				fx.Range(src).Walk(func(item any, pipe chan<- any) { work(item.(int)) }, fx.WithWorkers(n)).Done()
-			case "threading.WorkerGroup":
-				// n workers run the job once each (the panicAt-th invocation panics) and Start waits for all
-				k := 0
-				threading.NewWorkerGroup(func() {
-					me := k
-					k++
-					work(me)
-				}, n).Start()
-				if mapped != n {
-					s.fail("workergroup-invocations", "WorkerGroup of %d workers ran the job %d times before Start returned", n, mapped)
-				}
-			}
-		}()
-		s.notes = append(s.notes, fmt.Sprintf("mapped=%d max=%d", mapped, s.gauge.Max()))
-	}
-	return vx.Scenario{Name: name, Body: body, SetBound: n >= 2 && !thorough, P: 1, T: 0, Check: func(e *vsched.Exec) vx.Verdict {
-		s, _ := e.User.(*st)
-		if s != nil && s.bad != "" {
-			return vx.Verdict{Class: s.cls, Msg: s.bad, Sig: "bad"}
-		}
-		// termination / leak behaviour of MapReduce under panics is property C10's business;
-		// here only the worker cap is decided.
-		if e.Outcome != "ok" && panicAt >= 0 {
-			return vx.Verdict{Sig: "not-checked:" + e.Outcome}
-		}
-		if g := vx.Guard(e); g != nil {
-			return *g
-		}
-		return vx.Verdict{Sig: strings.Join(s.notes, ";")}
-	}}
-}
-
 var thorough bool
 
 func main() {
@@ -655,10 +563,27 @@ func main() {
 			sc = append(sc, workersScenario(k, n, 3, -1))
 		}
 		sc = append(sc, workersScenario("mr.ForEach", n, 3, 1), workersScenario("fx.Walk", n, 3, 1))
+		sc = append(sc, crossInstanceScenarios(n, cfg.Thorough())...)
+		sc = append(sc, secondaryEntryScenarios(n)...)
 	}
+	sc = append(sc, defaultCapacityScenarios()...)
 	if cfg.Thorough() {
 		sc = append(sc, limitScenario(2, "BBBB"), limitScenario(3, "BTBT"), timeoutLimitScenario(2, 4), poolScenario(2, 3, 2, false), poolScenario(2, 3, 2, true),
 			taskRunnerScenario(2, 4, true, true, -1), taskRunnerScenario(3, 4, false, false, 2), maxConnsScenario(2, 4, true, -1), workersScenario("mr.MapReduce", 2, 4, -1), workersScenario("fx.Walk", 3, 4, 0))
+	}
+	if only := os.Getenv("C05_ONLY"); only != "" && cfg.Replay == "" {
+		// development aid: run only the scenarios whose name contains one of the comma-separated
+		// fragments (never set by ./check or the tiers)
+		var keep []vx.Scenario
+		for _, s := range sc {
+			for _, f := range strings.Split(only, ",") {
+				if strings.Contains(s.Name, f) {
+					keep = append(keep, s)
+					break
+				}
+			}
+		}
+		sc = keep
 	}
 	vx.Main(cfg, r, sc, vx.Bounds{P: 2, T: 1}, vx.Bounds{P: 3, T: 2},
 		"every interleaving (preemption bound and timer-deviation bound reported per scenario) of 3-4 holders competing for a primitive of capacity 1-3 (syncx.Limit, TimeoutLimit, Pool, threading.TaskRunner, rest MaxConnsHandler, mr/fx worker pools), with panics placed in holders; an execution is distinct/non-trivial by (scenario, admitted/refused counts, peak concurrent holders)")
